@@ -1863,6 +1863,10 @@ func runClientBarrage(cfg *hx.RunCfg) error {
 		go func(lane int) {
 			defer wg.Done()
 			for j := range jobCh {
+				if jobs[j].directed == "vnet-frames" {
+					outs[j] = runVnetFrames(cfg.Seed, lane)
+					continue
+				}
 				outs[j] = runEpoch(cfg.Seed, jobs[j].idx, lane, cfg.Tier, jobs[j].directed, perEpoch, filepath.Dir(cfg.Stats), extra["mode"] == "race")
 			}
 		}(l)
